@@ -19,6 +19,7 @@ import (
 	"sort"
 	"strings"
 	"sync"
+	"sync/atomic"
 	"time"
 
 	"verif/lib/vlib"
@@ -270,6 +271,11 @@ func childEnv() []string {
 // runOne re-runs a single script in a fresh child (self-test first) and reports what happened:
 // "ok", "anomaly", "hang", "dead", "selftest-failed".
 func runOne(seed int64, idx int, synced bool, tag string) (string, *scriptResult, string) {
+	return runOneW(seed, idx, synced, tag, "")
+}
+
+// runOneW: wdog != "" overrides the per-script watchdog of the child (seconds).
+func runOneW(seed int64, idx int, synced bool, tag string, wdog string) (string, *scriptResult, string) {
 	j := filepath.Join(tmp, fmt.Sprintf("one-%s-%d.j", tag, idx))
 	r := filepath.Join(tmp, fmt.Sprintf("one-%s-%d.r", tag, idx))
 	l := filepath.Join(tmp, fmt.Sprintf("one-%s-%d.l", tag, idx))
@@ -280,7 +286,11 @@ func runOne(seed int64, idx int, synced bool, tag string) (string, *scriptResult
 	if synced {
 		sy = "1"
 	}
-	res := vlib.RunChild(self, []string{"child", fmt.Sprint(seed), fmt.Sprint(idx), fmt.Sprint(idx + 1), j, r, l, sy}, childEnv(), nil, 3*time.Minute)
+	env := childEnv()
+	if wdog != "" {
+		env = append(env, "C18_WDOG="+wdog)
+	}
+	res := vlib.RunChild(self, []string{"child", fmt.Sprint(seed), fmt.Sprint(idx), fmt.Sprint(idx + 1), j, r, l, sy}, env, nil, 4*time.Minute)
 	logb, _ := os.ReadFile(l)
 	var last *scriptResult
 	for _, ln := range readLines(r) {
@@ -406,20 +416,22 @@ func runBatch(b batch, bi int) {
 		case res.ExitCode == exitHang && lastRes != nil:
 			// a hang is a violation only when it reproduces 3/3 alone with the same handler on the stack
 			site := hangSite(lastRes.HangStack)
-			same := 0
-			for k := 0; k < 3; k++ {
-				st, rr, _ := runOne(seed, lastRes.Idx, b.synced, fmt.Sprintf("hang%d", k))
+			var sameN atomic.Int32
+			vlib.Parallel(3, 3, func(k int) {
+				// the confirmation runs get twice the time: a loop bounded by a 32-bit count ends, an unbounded one does not
+				st, rr, _ := runOneW(seed, lastRes.Idx, b.synced, fmt.Sprintf("hang%d", k), fmt.Sprint(2*int(scriptWdog/time.Second)))
 				if st == "hang" && rr != nil && hangSite(rr.HangStack) == site {
-					same++
+					sameN.Add(1)
 				}
-			}
+			})
+			same := int(sameN.Load())
 			w := mkW(lastRes.Idx)
 			w.LogTail = tail(lastRes.HangStack, 6000)
 			lastRes.HangStack = ""
 			rb, _ := json.Marshal(lastRes)
 			w.Result = rb
 			if same == 3 {
-				run.Violation("hang/"+site, fmt.Sprintf("script does not finish within %v, reproduced 3/3 alone, Run is inside %s", scriptWdog, site), w)
+				run.Violation("hang/"+site, fmt.Sprintf("script does not finish within %v (and within %v in 3/3 runs alone), Run is inside %s", scriptWdog, 2*scriptWdog, site), w)
 			} else {
 				run.Inconclusive("script %d exceeded the watchdog once (inside %s) but reproduced only %d/3 times", lastRes.Idx, site, same)
 			}
@@ -487,6 +499,7 @@ func account(r *scriptResult) {
 		}
 		run.Count("net.family."+fam, 1)
 		run.Distinct("net.cmd_x_mutation_x_phase", cmd, tag, handshaken)
+		run.Distinct("nontrivial", "net", cmd, tag, handshaken)
 		if cmd == "version" {
 			handshaken = true
 		}
@@ -566,6 +579,14 @@ func main() {
 				os.RemoveAll(tmp)
 				os.Exit(0)
 			}
+		case "--libcase":
+			if i+1 < len(os.Args) {
+				var n int
+				fmt.Sscan(os.Args[i+1], &n)
+				replayLib(run.Seed, "", n)
+				os.RemoveAll(tmp)
+				os.Exit(0)
+			}
 		case "--replay":
 			if i+1 < len(os.Args) {
 				replay(os.Args[i+1])
@@ -575,12 +596,23 @@ func main() {
 		}
 	}
 
-	nScripts := run.N(2000, 400000)
-	nLib := run.N(150000, 20000000)
+	nScripts := run.N(5000, 400000)
+	nLib := run.N(60000, 20000000)
 	var wg sync.WaitGroup
 	wg.Add(2)
-	go func() { defer wg.Done(); runNetwork(nScripts, 0) }()
-	go func() { defer wg.Done(); runLibrary(nLib) }()
+	only := os.Getenv("C18_ONLY") // debugging aid: "net" or "lib"
+	go func() {
+		defer wg.Done()
+		if only != "lib" {
+			runNetwork(nScripts, 0)
+		}
+	}()
+	go func() {
+		defer wg.Done()
+		if only != "net" {
+			runLibrary(nLib)
+		}
+	}()
 	wg.Wait()
 
 	if run.Get("net.selftests_passed") == 0 {
